@@ -65,7 +65,10 @@ var standingAssumptions = []string{
 	"signed machine integers are treated as mathematical integers (no overflow obligations); unsigned arithmetic wraps",
 	"no unsafe, reflection or data races in the verified functions; package-level byte-slice literals stored only by init are never written through",
 	"extern contracts (listed in trusted_base) are assumed, not proved",
-	"termination is shown only where a decreases clause is listed",
+	"termination is shown only where a decreases clause is listed (range loops are bounded by the language and listed separately)",
+	"interface-typed parameters and struct fields are assumed non-nil where a method is called on them; for interface values obtained from a call in the same function that is an obligation",
+	"package-level functions of strings, bytes, strconv, unicode, utf8, slices, maps, cmp, math, path, sort and errors without an explicit contract are assumed to have no effect on the modelled state (result unconstrained); each use is listed in trusted_base",
+	"a helper of this module without contract that is loop-free and not recursive is executed in place of its call (exact); a contract clause naming a renamed local is read with the new name per specs/locals.json (listed under warnings when it happens)",
 }
 
 type evSample struct {
